@@ -132,6 +132,12 @@ array_t* get_dir (char *path, int flags) {
   if (path == 0)
     return 0;
 
+  /* temppath[] holds MAX_PATH_LEN bytes of directory name, a '/' and one entry name.
+   * A longer path is refused: working on its first bytes would list (and stat) a
+   * directory the master was not asked about. */
+  if (strlen (path) > MAX_PATH_LEN)
+    return 0;
+
   if (strlen (path) < 2)
     {
       temppath[0] = path[0] ? path[0] : '.';
@@ -257,8 +263,13 @@ array_t* get_dir (char *path, int flags) {
            * We'll have to .... sigh.... stat() the file to get some add'tl
            * info.
            */
-          strcpy (endtemp, de->d_name);
-          stat (temppath, &st);	/* We assume it works. */
+          if (namelen > MAX_FNAME_SIZE)
+            memset (&st, 0, sizeof st);	/* does not fit in temppath[] */
+          else
+            {
+              strcpy (endtemp, de->d_name);
+              stat (temppath, &st);	/* We assume it works. */
+            }
         }
       encode_stat (&v->item[i], flags, de->d_name, &st);
       i++;
